@@ -2,7 +2,7 @@
 from . import sheetprop as P
 
 FEATURES = "var,media,amp".split(',')
-RULE = 'see harness/props/sheetprop.py: generated stylesheets with features %s; model compared byte-for-byte, reference semantics compared on the flat items read back from the output CSS by an independent reader' % FEATURES
+RULE = 'indirect references @@p at several nesting levels against the same program with the target written directly (real compiler on both sides); see harness/props/sheetprop.py: generated stylesheets with features %s; model compared byte-for-byte, reference semantics compared on the flat items read back from the output CSS by an independent reader' % FEATURES
 ASSUMPTIONS = ['the LALR parser builds the node tree that harness/gens/sheet.py:tree() predicts (checked on every case through the byte-exact output comparison); independently of that prediction, the whole pipeline from the source TEXT (coq/Model/Lex.v + Parse.v + Eval.v: compile_text) is compared byte for byte with the real compiler on every case (abstentions counted in distribution.text_pipeline)',
                'harness/readcss.py reads the produced CSS back correctly']
 TRUSTED = ['modelled by hand: Identifier.parse/root/fmt, Block.parse (media rotation), Property.parse/fmt, Block.fmt, Formatter, Scope (coq/Model/Ident.v, Eval.v, Fmt.v, Scope.v)',
@@ -106,8 +106,60 @@ def shadow_pattern(g, rng):
     return sheet if ok(sheet) else None
 
 
+# ---- indirect references @@p (outside the evaluator model): a program using @@p against the same program with @<target> written in
+# its place, both through the real compiler.  The pointer and the target are defined at different nesting levels, the target is
+# redefined between the pointer's level and the use, or defined only near the use.
+def indirect_program(rng):
+    tgt = rng.choice(['a', 'b', 'col'])
+    q = rng.choice(['"', "'"])
+    vals = ['1px', '2em', '3px solid', 'red', '#aabbcc', '10%']
+    depth = rng.randint(1, 3)
+    p_level = rng.randint(0, depth)                      # where the pointer is defined (0 = top level)
+    t_levels = sorted(rng.sample(range(0, depth + 1), rng.randint(1, min(3, depth + 1))))   # where the target is (re)defined
+    use_levels = [l for l in range(1, depth + 1) if l >= p_level and l >= t_levels[0]]
+    if not use_levels:
+        use_levels = [depth]; p_level = min(p_level, depth); t_levels = [0]
+
+    def build(ref):
+        def level(l):
+            out = ''
+            if l == p_level:
+                out += '@p: %s%s%s;\n' % (q, tgt, q)
+            if l in t_levels:
+                out += '@%s: %s;\n' % (tgt, vals[(l + len(tgt)) % len(vals)])
+            if l >= 1 and l in use_levels:
+                out += 'width: %s;\n' % ref
+            if l < depth:
+                out += '.n%d {\n%s}\n' % (l + 1, level(l + 1))
+                if l >= 1 and l in use_levels and rng_after[l]:
+                    out += 'margin: %s;\n' % ref          # a use after the nested block closed
+            return out
+        return level(0)
+    rng_after = {l: rng.random() < 0.5 for l in range(0, depth + 1)}
+    return build('@@p'), build('@' + tgt)
+
+
 def run(ctx):
-    return P.run_sheets(ctx, 3, FEATURES, 160, 4000, depth=3, all_opts=False, wild=False, nontrivial=nontrivial, gen_hook=shadow_pattern)
+    import random
+    from .. import impl, sheetcases as SC
+    out = P.run_sheets(ctx, 3, FEATURES, 160, 4000, depth=3, all_opts=False, wild=False, nontrivial=nontrivial, gen_hook=shadow_pattern)
+    rng = random.Random(ctx['seed'] * 1000003 + 303)
+    n = (60 if ctx['tier'] == 'quick' else 1500) * ctx.get('mult', 1)
+    progs = [indirect_program(rng) for _ in range(n)]
+    with impl.Pool() as pool:
+        a = pool.run([{'kind': 'compile', 'text': p[0], 'opts': {}} for p in progs])
+        b = pool.run([{'kind': 'compile', 'text': p[1], 'opts': {}} for p in progs])
+    skipped = 0
+    for (ind, direct), x, y in zip(progs, a, b):
+        out['evaluations'] += 1
+        if y.get('r') != 'ok':
+            skipped += 1
+            continue
+        if x.get('r') != 'ok' or x['css'] != y['css']:
+            out['spec_mismatch'].append({'input': {'text': ind, 'with_direct_reference': direct, 'opts': {}}, 'impl': x,
+                                         'spec': {'the program with the target written directly compiles to': y}, 'classes': []})
+    out.setdefault('distribution', {})['indirect_references'] = {'programs': len(progs), 'distinct': len({p[0] for p in progs}), 'direct_text_rejected': skipped}
+    return out
 
 
 replay = P.replay
